@@ -77,6 +77,9 @@ structure GapRes where
 
 def GapRes.gap (r : GapRes) : Rat := EGGen.gapOf r.L r.Llow r.Lhigh
 
+/-- `if L_low_mul < result.L_low: result.L_low = L_low_mul` -/
+def updLow (r : GapRes) (lowMul : Rat) : GapRes := if lowMul < r.Llow then { r with Llow := lowMul } else r
+
 /-- the `for mul in [...]` loop of `eval_gap`; `k` counts oracle calls -/
 def evalLoop (X : Ctx) (O : Nat → Hyp) (lamHat : List Rat) :
     List Rat → List Hyp → Nat → GapRes → List Hyp × Nat × GapRes
@@ -84,8 +87,8 @@ def evalLoop (X : Ctx) (O : Nat → Hyp) (lamHat : List Rat) :
   | mul :: ms, hs, k, r =>
     let bh := bestH hs (lamHat.map (fun x => mul * x)) (O k)
     let lowMul := lagr (tableOf X.c bh.1) (unit bh.2) (projLam X lamHat)
-    let r' : GapRes := if lowMul < r.Llow then { r with Llow := lowMul } else r
-    if EGLoopGen.evalBreak r'.gap X.nu then (bh.1, k + 1, r') else evalLoop X O lamHat ms bh.1 (k + 1) r'
+    if EGLoopGen.evalBreak (updLow r lowMul).gap X.nu then (bh.1, k + 1, updLow r lowMul)
+    else evalLoop X O lamHat ms bh.1 (k + 1) (updLow r lowMul)
 
 /-- `eval_gap(Q, lambda_hat, nu)`: (store afterwards, oracle calls afterwards, result) -/
 def evalGap (X : Ctx) (O : Nat → Hyp) (hs : List Hyp) (k : Nat) (Q lamHat : List Rat) : List Hyp × Nat × GapRes :=
